@@ -771,6 +771,36 @@ pub fn bundled_layout() -> &'static BundledLayout {
     })
 }
 
+/// A copy of the bundled voice whose GV means (both GV streams) are multiplied by `factor`;
+/// everything else is identical, so it combines with the bundled voice and its perturbed copies.
+pub fn gv_scaled_bundled(factor: f64) -> Vec<u8> {
+    let mut out = bundled_bytes().to_vec();
+    let l = bundled_layout();
+    let head = std::str::from_utf8(&out[..l.data_start]).unwrap().to_string();
+    let v = bundled_file_voice();
+    for s in &v.streams {
+        let Some(g) = &s.gv else { continue };
+        let key = format!("GV_PDF[{}]:", s.name);
+        let Some(line) = head.lines().find(|x| x.starts_with(&key)) else { continue };
+        let (_, r) = line.split_once(':').unwrap();
+        let (a, _) = r.split_once('-').unwrap();
+        let a: usize = a.parse().unwrap();
+        let ntrees = g.trees.len();
+        let base = l.data_start + a;
+        let total: usize = (0..ntrees).map(|i| u32::from_le_bytes(out[base + 4 * i..base + 4 * i + 4].try_into().unwrap()) as usize).sum();
+        let fl = base + 4 * ntrees;
+        let len = s.vector_length;
+        for p in 0..total {
+            for k in 0..len {
+                let off = fl + 4 * (p * 2 * len + k);
+                let x = f32::from_le_bytes(out[off..off + 4].try_into().unwrap()) as f64;
+                out[off..off + 4].copy_from_slice(&((x * factor) as f32).to_le_bytes());
+            }
+        }
+    }
+    out
+}
+
 /// A copy of the bundled voice with the f32 entries of its PDF blocks rewritten: static means
 /// jittered, voicing weights redrawn, variances scaled. Metadata is unchanged, so the copy can be
 /// combined with the original in one voice set. `strength` in [0,1].
